@@ -244,6 +244,13 @@ class SiteScan:
             v, i = args[0], args[1]
             d, r, fn = callee(t)
             targs = " ".join(fn.get("targs", []))
+            # the position a bisection of the same slice answered: binary_search*(v, ..) as Ok.0 is an index of v,
+            # partition_point(v, ..) is at most len(v)
+            sv_, si_ = strip_ver(show(v)), strip_ver(show(i))
+            if re.match(r"^binary_search(?:_by|_by_key)?\(%s, .*\) as Ok\.0$" % re.escape(sv_), si_):
+                return True, ""
+            if re.match(r"^RangeTo::RangeTo\{end: partition_point\(%s, .*\)\}$" % re.escape(sv_), si_):
+                return True, ""
             if "Range" in targs:
                 # v[lo..lo + n] with lo + n <= len(v) established on this path (n is a length, hence lo <= lo + n)
                 if i[0] == "agg" and i[2] == "Range" and len(i[4]) == 2:
@@ -433,7 +440,7 @@ def api_bodies(ctx):
     return out
 
 
-@rule("PANIC-INVENTORY", ["C05"], floor=150)
+@rule("PANIC-INVENTORY", ["C05", "C07"], floor=150)
 def panic_inventory(ctx):
     """Every panic-capable site reachable from the public API (bounds checks, overflow asserts, unwrap/expect,
     Index calls, Vec::remove/insert, explicit panics) is discharged by a dominating guard on every path, or is
@@ -442,6 +449,12 @@ def panic_inventory(ctx):
     out = []
     groups = {}
     total = 0
+    # a panic on the way through the constructor is a pattern that is neither accepted nor rejected (C07)
+    ctor = ctx.cg.reachable(["regex::Regex::new"])
+
+    def scoped(i, path):
+        i.props = ["C05", "C07"] if ctx.creator_root(path) in ctor or path in ctor else ["C05"]
+        return i
     for b in api_bodies(ctx):
         sc = scan(ctx, b)
         ctx.body(b.path)
@@ -450,7 +463,7 @@ def panic_inventory(ctx):
             if s["kind"] == "refcell":
                 continue
             if s["undis"] == 0:
-                out.append(ok("discharged|%s|%s" % (b.path, _static_key(ctx, b, bb, s["kind"]))))
+                out.append(scoped(ok("discharged|%s|%s" % (b.path, _static_key(ctx, b, bb, s["kind"]))), b.path))
             else:
                 key = "%s|%s" % (b.path, _static_key(ctx, b, bb, s["kind"]))
                 groups.setdefault(key, []).append((b, bb, s))
@@ -471,6 +484,7 @@ def panic_inventory(ctx):
                     a = {"count": alt.get("count", 1), "reason": alt["reason"]}
                     break
         b, bb, s = lst[0]
+        n0 = len(out)
         if a is None:
             out.append(bad("site|" + key, "panic-capable site is neither discharged nor audited: %s [%s]" % (key, s["why"]), b.loc(bb)))
         elif a.get("finding"):
@@ -479,6 +493,8 @@ def panic_inventory(ctx):
             out.append(bad("site|" + key, "audited group grew from %d to %d sites: %s" % (a.get("count", 1), len(lst), key), b.loc(bb)))
         else:
             out.append(ok("audited|" + key))
+        for i in out[n0:]:
+            scoped(i, b.path)
     ctx.extra_evidence.setdefault("C05", {})["panic_sites_total"] = total
     ctx.extra_evidence["C05"]["panic_sites_audited"] = sum(1 for k in groups if k in audit and not audit[k].get("finding"))
     return out
